@@ -239,6 +239,8 @@ def main(argv=None):
 
     exp_und = _Und(ledger.get("undecided", {}))
     exp_und.update(ledger.get("undecided_patterns", {}))
+    if a.tier == "thorough":  # families of hard leaves that only the thorough tier instantiates
+        exp_und.update(ledger.get("undecided_patterns_thorough", {}))
 
     # ---- checker errors
     errors = [r for r in results if r["error"]]
@@ -416,6 +418,7 @@ def main(argv=None):
     if a.update_ledger:
         ledger = {
             "undecided_patterns": load_ledger(pid).get("undecided_patterns", {}),
+            "undecided_patterns_thorough": load_ledger(pid).get("undecided_patterns_thorough", {}),
             "undecided": und_counts,
             "hashes": hashes,
             "counts": {"obligations": n_ob, "proved": len(proved), "jobs": len(jobs)},
